@@ -26,7 +26,7 @@ ASSUMPTIONS = [
 PS = ['P0', 'P1', 'P2', 'P3']
 QSRC = ['files', 'list'] + [f'sig:{p}' for p in PS]
 RSRC = ['files', 'list', 'use-db', 'square'] + [f'sig:{p}' for p in PS]
-OPTS = ['none', 'k-only', 'p-only'] + [f'kp:{p}' for p in PS]
+OPTS = ['none', 'k-only', 'p-only'] + [f'kp:{p}' for p in PS] + ['kp:DEF']      # explicit options that spell out the default are still explicit
 
 
 def plan(tier, seed):
